@@ -121,6 +121,13 @@ def fx_hook_v2(params):
     LOG.append(['hook', params['name'] + '#v2', _state(params.get('model')) if 'model' in params else None])
 
 
+def fx_swap_env(params):
+    """An agent-level hook that installs a fresh environment on the model (e.g. a world sized from what was decoded so
+    far): agents created afterwards join the environment the model has THEN."""
+    fx_hook(params)
+    params['model'].set_environment(Core.Environment(params['model']))
+
+
 def fx_nested(params):
     """A hook that loads a sub-model from another file with the SAME decoder instance, then behaves like fx_hook."""
     keep = len(LOG)
@@ -150,6 +157,8 @@ def build_desc(case):
     def hook(name):
         if name == 'pre_model' and case.get('late_model'):
             return ent({'func': 'fx_provide', 'params': {'name': name}})
+        if name == case.get('swap_at'):
+            return ent({'func': 'fx_swap_env', 'params': {'name': name}})
         return ent({'func': 'fx_nested' if name == nested_at else 'fx_hook', 'params': {'name': name}})
 
     hooks = case['hooks']       # dict name -> bool
@@ -214,11 +223,15 @@ def _expected_log(case, mid):
     for g, n in enumerate(case['sizes']):
         if hooks.get(f'pre_g{g}'):
             out.append(['hook', f'pre_g{g}', [mid, ns, na]])
+            if case.get('swap_at') == f'pre_g{g}':
+                na = 0          # the hook installed a fresh, empty environment
         for idx in range(n):
             out.append(['agent', f'g{g}', idx, [mid, ns, na]])
             na += 1
         if hooks.get(f'post_g{g}'):
             out.append(['hook', f'post_g{g}', [mid, ns, na]])
+            if case.get('swap_at') == f'post_g{g}':
+                na = 0
     if hooks.get('post_model'):
         out.append(['hook', 'post_model', None])
     return out
@@ -229,7 +242,7 @@ def decode_case(case):
     main = sys.modules['__main__']
     me = sys.modules[MOD]
     me.fx_hook = _FX_HOOK_V1
-    for name in ('FxModel', 'FxSystem', 'FxCollector', 'FxAgent', 'fx_hook', 'fx_nested', 'fx_provide'):
+    for name in ('FxModel', 'FxSystem', 'FxCollector', 'FxAgent', 'fx_hook', 'fx_nested', 'fx_provide', 'fx_swap_env'):
         setattr(main, name, getattr(me, name))     # resolution target when the description omits "module"
     tmp = tempfile.mkdtemp(prefix='c18-')
     try:
@@ -324,7 +337,10 @@ def check_model(m, case):
         if got != [prio, 1 + i, 0, _end(case, i), True]:
             raise Violation(f'system s{i} does not carry its declared scheduling',
                             expected=[prio, 1 + i, 0, _end(case, i), True], observed=got)
-    want_agents = [f'g{g}_{i}' for g, n in enumerate(case['sizes']) for i in range(n)]
+    first = 0
+    if case.get('swap_at'):      # only the groups created after the environment was replaced live in the model's environment
+        first = int(case['swap_at'].split('_g')[1]) + (1 if case['swap_at'].startswith('post') else 0)
+    want_agents = [f'g{g}_{i}' for g, n in enumerate(case['sizes']) for i in range(n) if g >= first]
     got_agents = [a.id for a in m.environment]
     if got_agents != want_agents:
         raise Violation('environment does not hold exactly the listed agents in creation order', expected=want_agents,
@@ -404,6 +420,9 @@ def cases(tier):
             out.append(dict(base, key_order='reversed'))
             out.append(dict(base, imposters=True))
             out.append(dict(base, rewrite=True))
+            for at in hook_names(ns, ng):
+                if '_g' in at:
+                    out.append(dict(base, swap_at=at))
             out.append(dict(base, late_model=True))
             out.append(dict(base, late_model=True, hooks={'pre_model': True}))
     # a large description: 60 systems, a group of 1100 agents between an empty group and a small one
